@@ -3,6 +3,7 @@ package main
 // C01 — invocation round trip is byte-exact and yields exactly one outcome (DESIGN.md section 6).
 
 import (
+	"encoding/hex"
 	"encoding/json"
 	"fmt"
 	"strconv"
@@ -383,6 +384,16 @@ var c01CtxGen = rapid.OneOf(
 	rapid.Custom(func(t *rapid.T) string {
 		return `{"k":"` + strings.Repeat("x", rapid.IntRange(100, 3000).Draw(t, "n")) + `"}`
 	}),
+	// bytes that are not UTF-8 (Latin-1 text, binary): "hex:<digits>" in the scenario and in the trace
+	rapid.Custom(func(t *rapid.T) string {
+		n := rapid.IntRange(1, 24).Draw(t, "n")
+		b := []byte{'Z'}
+		for i := 0; i < n; i++ {
+			b = append(b, byte(rapid.SampledFrom([]int{0xfc, 0xe9, 0x80, 0xff, 0xc3, 0xa0, 'a', '{', '"', 0xfe, 0x9f}).Draw(t, fmt.Sprintf("b%d", i))))
+		}
+		b = append(b, 0xfc, 'r')
+		return "hex:" + hex.EncodeToString(b)
+	}),
 )
 
 func c01Gen(t *rapid.T) c01Case {
@@ -434,10 +445,11 @@ func c01Gen(t *rapid.T) c01Case {
 
 func c01Fixed() []c01Case {
 	s := `{"custom":"ctx"}`
+	latin1 := "hex:5afc72696368" // "Z\xfcrich" in Latin-1: not UTF-8
 	return []c01Case{
 		{TimeoutMs: 5000, TimeoutEnvS: 7, Invs: []c01Inv{
 			{Payload: kit.Blob{Len: 300, Seed: 1, Kind: "ascii"}, Kind: "ok", Ctx: &s},
-			{Payload: kit.Blob{Len: 10, Seed: 2, Kind: "nonutf8"}, Kind: "ok"},
+			{Payload: kit.Blob{Len: 10, Seed: 2, Kind: "nonutf8"}, Kind: "ok", Ctx: &latin1},
 			{Payload: kit.Blob{Len: 0, Kind: "zero"}, Kind: "error"},
 			{Payload: kit.Blob{Len: 4097, Seed: 3, Kind: "random"}, Kind: "repoll"},
 			{Payload: kit.Blob{Len: 77, Seed: 4, Kind: "json"}, Kind: "ok", Knock: true},
